@@ -46,7 +46,8 @@ REAL = ["pox.openflow.of_01 PortCollection, Connection._incoming_stats_reply, "
 STUBBED = ["socket/select/time/pinger (simkit)", "switch peer (scripted)"]
 EXPECT_PROBES = ["ps_add", "ps_modify", "ps_delete", "ps_readd", "ps_rename",
                  "ps_rehw", "ps_delete_unknown", "stats_multipart_done",
-                 "stats_abandoned", "stats_interleaved", "stats_single"]
+                 "stats_abandoned", "stats_interleaved", "stats_single",
+                 "glued_to_handshake_end"]
 
 MULTI = {W.ST_FLOW: "FlowStatsReceived", W.ST_TABLE: "TableStatsReceived",
          W.ST_PORT: "PortStatsReceived", W.ST_QUEUE: "QueueStatsReceived"}
@@ -71,6 +72,9 @@ def gen_plan(seed, tier):
          # a second switch is connected at the same time, with port numbers
          # in common, and gets port-status messages of its own
          "neighbour": r.chance(0.5)}
+  # the first k messages of the history follow the handshake-ending barrier
+  # reply in the same write (one recv() may hold all of them)
+  cfg["glue"] = Rng(mix(seed, "glue")).pick([0, 0, 0, 1, 2, 4])
   # port-status messages that arrive while the handshake is still waiting
   # for its barrier reply (buffered, applied once the connection is up)
   cfg["early_ps"] = [
@@ -206,7 +210,9 @@ def _drive(sim, plan, known, hit):
   sim.settle()
   ports0 = [_port(no) for no in cfg["ports0"]]
   early = cfg.get("early_ps") or []
-  if not early:
+  glue = cfg.get("glue", 0)
+  cork = [None]
+  if not early and not glue:
     if not handshake_script(peer, 0x99, ports0):
       raise S.SimAbort("harness", "handshake did not complete")
   else:
@@ -227,9 +233,26 @@ def _drive(sim, plan, known, hit):
       sim.probes["ps_during_handshake"] += 1
       if sim.ch.chance("early_ps_settle", 0.5):
         sim.drain()
-    peer.send(W.enc_barrier_reply(br[0]["xid"]))
-    sim.drain()
-    peer.take()
+    if glue:
+      cork[0] = [W.enc_barrier_reply(br[0]["xid"])]
+      sim.probes["glued_to_handshake_end"] += 1
+    else:
+      peer.send(W.enc_barrier_reply(br[0]["xid"]))
+      sim.drain()
+      peer.take()
+
+  def emit(data):
+    if cork[0] is not None:
+      cork[0].append(data)
+    else:
+      peer.send(data)
+
+  def uncork():
+    if cork[0] is not None:
+      data, cork[0] = b"".join(cork[0]), None
+      peer.send(data)
+      sim.drain()
+      peer.take()
   con = peer.con
   if cfg.get("halt_raw"):
     from pox.lib.revent import EventHalt
@@ -335,12 +358,18 @@ def _drive(sim, plan, known, hit):
       raise Violation("stats/missing-event", "%s: the reply for xid %#x "
                       "completed but %s did not fire" % (ctx, wxid, wname))
 
-  check_ports("after handshake")
+  if cork[0] is None:
+    check_ports("after handshake")
   for i, st in enumerate(plan["steps"]):
     sim.ch.reseed(mix(plan["seed"], "step", i))
     op = st["op"]
     if lost:
       break
+    if cork[0] is not None and (i >= glue or op in ("lose", "settle")
+                                or (op == "ps" and st.get("who"))):
+      uncork()
+      check_ports("after the handshake and %d glued message(s)" % i)
+      check_stats("after the handshake and %d glued message(s)" % i)
     if op == "ps" and st.get("who") and peer2 is not None:
       # the neighbour's own port-status: only its view may change
       no = st["port"]
@@ -355,7 +384,7 @@ def _drive(sim, plan, known, hit):
       no = st["port"]
       pd = _port(no, st["name_v"], st["hw_v"], st["config"])
       reason = st["reason"]
-      peer.send(W.enc_port_status(nx(), reason, pd))
+      emit(W.enc_port_status(nx(), reason, pd))
       if reason == W.PR_DELETE:
         if no in model:
           sim.probes["ps_delete"] += 1
@@ -377,7 +406,7 @@ def _drive(sim, plan, known, hit):
     elif op == "stats":
       xid, stype = st["xid"], st["stype"]
       flags = W.SF_REPLY_MORE if st["more"] else 0
-      peer.send(W.enc_stats_reply(xid, stype, _stats_body(stype, st["tags"]),
+      emit(W.enc_stats_reply(xid, stype, _stats_body(stype, st["tags"]),
                                   flags))
       interleaved = xid in parts and last_stats[0] != xid
       started_over_open = bool(order) and xid not in parts
@@ -407,16 +436,18 @@ def _drive(sim, plan, known, hit):
         del parts[xid]
         order.remove(xid)
     elif op == "echo":
-      peer.send(W.enc_echo_request(nx(), b"x"))
+      emit(W.enc_echo_request(nx(), b"x"))
     elif op == "packet_in":
       data = F.eth(F.mac(1), F.mac(2), 0x88b5, b"y" * 30)
-      peer.send(W.enc_packet_in(nx(), W.NO_BUFFER, len(data), 1, 0, data))
+      emit(W.enc_packet_in(nx(), W.NO_BUFFER, len(data), 1, 0, data))
     elif op == "barrier":
-      peer.send(W.enc_barrier_reply(nx()))
+      emit(W.enc_barrier_reply(nx()))
     elif op == "lose":
       sim.drain()
       peer.close()
       lost = True
+    if cork[0] is not None:
+      continue          # (still part of the write that ends the handshake)
     sim.drain()
     peer.take()
     if not lost:
@@ -425,6 +456,10 @@ def _drive(sim, plan, known, hit):
                         "connection after step %d (%s)" % (i, op))
       check_ports("after step %d (%s)" % (i, op))
     check_stats("after step %d (%s)" % (i, op))
+  if cork[0] is not None:
+    uncork()
+    if not lost:
+      check_ports("after the handshake and the glued messages")
   sim.drain()
   check_stats("at the end")
   if sim.task_deaths:
